@@ -63,7 +63,9 @@ func Pack(t *lex.Tables) (*Scanner, error) {
 	if len(t.StateMap) != 1 || t.StateMap[0] != 0 {
 		return nil, errors.New("multiple start states are not supported")
 	}
-	if t.SymbolMap[len(t.SymbolMap)-1].Start > 0xff {
+	// All bytes >= 0x80 are packed as members of the last symbol map entry (see below), so this entry
+	// must start at or before 0x80, i.e. the rules must not distinguish between non-ASCII bytes.
+	if t.SymbolMap[len(t.SymbolMap)-1].Start > 0x80 {
 		return nil, errors.New("only ASCII automatons are supported")
 	}
 
